@@ -258,6 +258,17 @@ def _list_append(ex, st, self, args, kwargs, node):
         # `hash_entries = [MHLHashEntry]` followed by appends of instances (generator.py): heterogeneous list
         raise Unsupported("list mixing a class object and instances")
     new = ex.list_append(self, v)
+    if not ex.in_spec:
+        # purified description of the appended list (length + element-wise), next to the Concat term: quantified
+        # invariants over indices are discharged from these facts, not from the sequence solver
+        r = z3.Const(fresh_name("app"), new.e.sort())
+        n = z3.Length(self.e)
+        j = z3.Int(fresh_name("j"))
+        st.assume(r == new.e)
+        st.assume(z3.Length(r) == n + 1)
+        st.assume(r[n] == ex.to_elem(v, self.elem_ty))
+        st.assume(z3.ForAll([j], z3.Implies(z3.And(0 <= j, j < n), r[j] == self.e[j])))
+        new = VList(new.elem_ty, r)
     ex.mutate(node, st, new)
     return VNone()
 
